@@ -369,6 +369,17 @@ static int c20_epoll_wait(int epfd, struct epoll_event *events, int maxevents, i
             _exit(4);
         }
     }
+    if (IS_MAIN() && opt_snap && janet_vm.tq_count > 0 && count_stale_timers() == janet_vm.tq_count) {
+        /* about to block until a timer fires although every timer left is stale (its fiber was resumed / cancelled / is dead) */
+        Truth t = ground_truth();
+        if (t.susp + t.lis + t.inpipe + t.calls == 0) {
+            pthread_mutex_lock(&c20_mu);
+            out("STALE-TIMERS-BLOCK step=%ld tq=%zu lc=%d (only stale timers left, nothing outstanding, loop blocks until they expire)\n",
+                c20_step, janet_vm.tq_count, (int) janet_atomic_load(&janet_vm.listener_count));
+            fflush(stdout);
+            _exit(5);
+        }
+    }
     return epoll_wait(epfd, events, maxevents, timeout);
 }
 
